@@ -48,6 +48,7 @@ fn dispatch(cmd: &str, rest: &[String]) {
 		"ind-api-replay" => indicators::api_replay(rest),
 		"indparams-replay" => indicators::params_replay(rest),
 		"ind-record" => indicators::record(rest),
+		"ind-prefix-record" => indicators::prefix_record(rest),
 		"soak-record" => soak::record(rest),
 		"num-record" => num::record(rest),
 		"tok-replay" => tok::replay(rest),
